@@ -208,7 +208,7 @@ func buildCorpus(c *Ctx, nGen int, withRepo, withStd bool) ([]corpusFn, error) {
 }
 
 func suiteCanon(c *Ctx) error {
-	c.Res.Rule = "corpus = generated programs (exec + 8 raw families) + every function of /repo's pkg/ and internal/ + testdata samples + ~10 standard-library packages; each function is exported as MiniSSA (no source-level names) and the Lean canonicaliser must reproduce the real CanonicalIR byte for byte under DefaultLiteralPolicy and KeepAllLiteralsPolicy; non-trivial = function has >= 2 blocks; distinct by exported text"
+	c.Res.Rule = "corpus = generated programs (exec + 8 raw families) + every function of /repo's pkg/ and internal/ + testdata samples + ~10 standard-library packages; each function is exported as MiniSSA (no source-level names) and the Lean canonicaliser must reproduce the real CanonicalIR byte for byte under DefaultLiteralPolicy and KeepAllLiteralsPolicy; the model also prints two renumbered copies of every function (blocks reversed / rotated, instructions renumbered) and the text must not change; non-trivial = function has >= 2 blocks; distinct by exported text"
 	nGen := c.N
 	if nGen == 0 {
 		nGen = 12
@@ -249,6 +249,11 @@ func suiteCanon(c *Ctx) error {
 		lines = append(lines, "canon\tdefault", "canon\tkeepall")
 		expect = append(expect, hx(d.CanonicalIR), hx(k.CanonicalIR))
 		owner = append(owner, ci, ci)
+		// nothing the text shows may depend on go/ssa's block and instruction numbers: the model prints
+		// the function and two renumbered copies (blocks reversed / rotated, instructions renumbered)
+		lines = append(lines, "renumcanon\tkeepall")
+		expect = append(expect, "same|same")
+		owner = append(owner, ci)
 		c.Count("origin_" + strings.SplitN(cf.origin, "/", 2)[0])
 	}
 	for k, v := range kinds {
@@ -270,7 +275,15 @@ func suiteCanon(c *Ctx) error {
 		return err
 	}
 	badFn := map[int]bool{}
+	var renumDiffs []int
 	for i, o := range mouts {
+		if strings.HasPrefix(lines[i], "renumcanon") {
+			c.Count("renumbered_" + o)
+			if o != expect[i] {
+				renumDiffs = append(renumDiffs, owner[i])
+			}
+			continue
+		}
 		if o != expect[i] && !badFn[owner[i]] {
 			badFn[owner[i]] = true
 			c.Res.ModelDiffs++
@@ -280,6 +293,11 @@ func suiteCanon(c *Ctx) error {
 			c.ViolateNoInput("C01", "CANON/model-correspondence", fmt.Sprintf("%s (%s) %s: canonical IR differs from the Lean canonicaliser", cf.name, cf.origin, lines[i]),
 				map[string]interface{}{"broken": "correspondence Sfw.Canon.canon (theorems C01_*/C02_*/C03_*)", "function": cf.name, "origin": cf.origin, "policy": lines[i], "impl_ir": want, "model_ir": got})
 		}
+	}
+	for _, ci := range renumDiffs {
+		cf := corpus[ci]
+		c.ViolateNoInput("C02", "C02/renumbering-changes-canonical-text", fmt.Sprintf("%s (%s): the model canonicaliser prints the function and a copy with renumbered blocks and instructions differently - the text depends on go/ssa's numbering, i.e. on the order the source lists its branches in", cf.name, cf.origin),
+			map[string]interface{}{"broken": "correspondence canonicalIR (renumber f) = canonicalIR f on the model canonicaliser (the real one equals it byte for byte in this suite)", "function": cf.name, "origin": cf.origin})
 	}
 	c.Sample(map[string]interface{}{"functions": len(corpus), "model_mismatches": len(badFn)})
 	return nil
